@@ -1,4 +1,5 @@
 """Checks on loaded zones: C01, C02, C03, C06, C10, C11, C14."""
+import os
 import bisect, concurrent.futures
 from .common import (align_zone_lines, Check, canon, ub_site, enclosing_function, run_model, run_lines, I64MIN, I64MAX, NCPU, log)
 from . import civil as C
@@ -432,8 +433,14 @@ def run_C11(chk):
                     sub.append((D, t * D + r))
         sub = sorted(set(sub))
         for D, c in sub: b.append('subtr %s %d %d' % (zid(i), D, c))
+        # the same queries right after a lookup that primed the table position for the interval starting / ending there
+        primed = []
+        for t in (cand[:2] + cand[-3:]):
+            primed += [('pt', t, t + 1), ('pt', t, t), ('nt', t, t - 1), ('nt', t - 1, t - 1), ('pt', t + 1, t + 1)]
+        for kind, q, prime in primed:
+            b.append('bt %s %d' % (zid(i), prime)); b.append('%s %s %d' % (kind, zid(i), q))
         b += [preds_line(i), 'ntchain %s' % zid(i), 'ptchain %s' % zid(i)]
-        blocks.append(b); meta.append((qs, real, sub))
+        blocks.append(b); meta.append((qs, real, sub, primed))
     # zones without transitions (UTC and fixed offsets: their built-in table only has entries that change nothing, one per
     # year 2015…2025) always answer false, also right after a lookup that primed the table position
     fblocks = []
@@ -453,7 +460,7 @@ def run_C11(chk):
     mo, io = run_blocks(chk, exe, blocks, 'transitions')
     note_mismatches(chk, blocks, mo, io, 'transitions')
     good = 0
-    for zn, out, (qs, real, sub) in zip(zones, io, meta):
+    for zn, out, (qs, real, sub, primed) in zip(zones, io, meta):
         if not out[0].startswith('ok'): continue
         def want(T):
             if T is None: return 'none'
@@ -495,6 +502,18 @@ def run_C11(chk):
                            sig='%s subsecond %s' % (zn.name, 'prev' if o.split(' | ')[0] == w.split(' | ')[0] else 'next'))
             else:
                 good += 1; chk.count('subsecond:ok')
+        for j, (kind, q, prime) in enumerate(primed):
+            o = out[1 + 2 * len(qs) + len(sub) + 2 * j + 1]
+            if kind == 'nt':
+                jn = bisect.bisect_right(real, q); T = real[jn] if jn < len(real) else None
+            else:
+                jp = bisect.bisect_left(real, q); T = real[jp - 1] if jp > 0 else None
+            w = want(T)
+            if o != w:
+                chk.report('%s: %s_transition(%d) right after lookup(%d) = `%s`; expected `%s`' % (zn.name, 'next' if kind == 'nt' else 'prev', q, prime, o, w),
+                           {'zone': zn.name, 'tzif_hex': Z.hx(zn.data), 'ops': ['bt %d' % prime, '%s %d' % (kind, q)], 'implementation': o, 'specification': w}, sig='%s primed %s' % (zn.name, kind))
+            else:
+                good += 1; chk.count('primed:ok')
     chk.cov['distinct_nontrivial'] = good
     chk.cov['zones'] = len(zones)
     chk.cov['rule'] = ('per zone: query instants equal to each (sampled) real change, one second either side, at no-op entries, min() and max(); next_transition / prev_transition compared with the model and with the '
@@ -636,6 +655,28 @@ def run_C10(chk):
                            {'op': l, 'implementation': o, 'specification': want}, sig='libc:UTC %s %s' % (p[0], site_sig(o)))
             else:
                 good += 1; chk.count('libc-utc:ok')
+    # "libc:localtime" with TZ=UTC0 in the environment (no zone data involved): mktime()/localtime() of the C library; around the
+    # epoch (mktime's -1 is also its error value) every civil second converts exactly and round-trips
+    l2 = ['libczone M local']
+    pts = [-1, 0, 1, -2, 3599, 3600, -3600, 86399, -86400, 2**31 - 1, -2**31, 951782400, 1709164800]
+    for t in pts: l2 += ['bt M %d' % t, 'mt M %s' % C.fmt(C.civil_of_sec(t)), 'cv M %s' % C.fmt(C.civil_of_sec(t))]
+    lo2 = run_lines(exe, l2, timeout=300, env={'TZ': 'UTC0'})
+    if not lo2[0].startswith('ok'):
+        chk.report('load_time_zone("libc:localtime") gives `%s`' % lo2[0], {'op': l2[0], 'implementation': lo2[0]}, sig='libc load')
+    else:
+        for l, o in zip(l2[1:], lo2[1:]):
+            p = l.split()
+            if p[0] == 'bt':
+                t = int(p[2]); want = '%s 0 0 %s' % (C.fmt(C.civil_of_sec(t)), b'UTC'.hex())
+            else:
+                v = C.sec_num(tuple(int(x) for x in p[2:8]))
+                want = ('UNIQUE %d %d %d' % (v, v, v)) if p[0] == 'mt' else str(v)
+            chk.cov['evaluations'] += 1
+            if o != want:
+                chk.report('libc:localtime (TZ=UTC0): `%s` = `%s`; expected `%s`' % (' '.join(p[:1] + p[2:]), o, want), {'op': l, 'env': 'TZ=UTC0', 'implementation': o, 'specification': want},
+                           sig='libc:localtime %s' % p[0])
+            else:
+                good += 1; chk.count('libc-local:ok')
     chk.cov['distinct_nontrivial'] = good
     chk.cov['zones'] = len(zones) + len(fixed)
     chk.cov['rule'] = ('every zone of the corpus plus fixed offsets of +-24h, +-(24h-1s), 0, +1h, -1s plus well-formed zones outside the tameness hypothesis: lookup / next_transition / prev_transition at the outermost '
@@ -728,6 +769,19 @@ def run_C14(chk):
     # again" also when the first loads raced: the schedules of C13, judged by the re-load that follows each
     from .props_loader import run_sched_part
     good += run_sched_part(chk, 'C14', exe, 'quick')
+    # …and when the zone map's mutex is contended: everything already loaded, loaded again by several threads
+    import subprocess
+    from .common import SAN_ENV, REPO
+    env = dict(os.environ); env.update({'TZDIR': os.path.join(REPO, 'testdata/zoneinfo')}); env.update(SAN_ENV)
+    for r, (kk, iters) in enumerate(((8, 150), (16, 80))):
+        line = 'stress %d %d %d' % (kk, iters, chk.seed * 100 + 50 + r)
+        p = subprocess.run([exe], input=(line + '\n').encode(), stdout=subprocess.PIPE, stderr=subprocess.PIPE, env=env, timeout=3000)
+        o = p.stdout.decode().strip()
+        if 'refactory=' in o or not o.startswith('stress threads='):
+            chk.report('loading names again that are already in the zone map consulted the data source again under contention: %s' % o, {'op': line, 'implementation': o}, sig='stress refactory')
+        elif 'differing=0' not in o:
+            chk.report('answers under concurrent use differ from a single-threaded replay of the same calls: %s' % o, {'op': line, 'implementation': o}, sig='stress differing')
+        else: good += 1
     chk.cov['distinct_nontrivial'] = good
     chk.cov['zones'] = len(zones)
     chk.cov['rule'] = ('per zone two copies of the same bytes loaded under different names: on one, every reachable hidden state is set up (one lookup(t) and one lookup(civil) per table index, all indexes for small tables '
